@@ -70,6 +70,41 @@ CHECKS.update({
                 design="DESIGN.md §4 C17"),
 })
 
+CHECKS.update({
+    "C01": dict(level="other",
+                text="Structural conformance: the 38-row pattern table and psk placement vs rev 34 (+ §7.3 validity predicates), per-token effect traces of the write/read loops and epilogues vs §5.3, DH operand table by role, dataflow templates (exact event sets with operand provenance) for the SymmetricState/CipherState operations and the HMAC/HKDF defaults, AEAD nonce layout / operand wiring / tag placement of every local Cipher impl, transport key index by role, verbatim protocol name, reported flag/hash. Byte equality for all inputs and the numerics of the external primitives are NOT decided.",
+                technique="HIR table extraction + MIR effect traces and dataflow-template matching (operand provenance) against hand-written spec tables",
+                design="DESIGN.md §4 C01"),
+    "C02": dict(level="other",
+                text="Mirror symmetry needed for agreement: write/read token traces equal the spec and each other under Encrypt<->Decrypt, both epilogues split identically, both AndHash operations mix the ciphertext, progress counters move only on Ok, role-index complementarity (initiator write = responder read) in both transport types, conversions move the cipher pair/role unchanged, generate_keypair returns one generated pair. Agreement for every random ephemeral/payload is not decided as such.",
+                technique="sibling effect-trace comparison + dataflow templates + role-table extraction over MIR",
+                design="DESIGN.md §4 C02"),
+    "C03": dict(level="other",
+                text="Necessary conditions of transcript integrity in snow's code: every incoming byte is consumed exactly once and hashed/mixed (cursor discipline + token traces), every written region is hashed, h is the AD of every handshake AEAD operation down to the backend call, ciphertext is what is mixed, no Result is dropped anywhere in the crate, the read returns Ok only after the payload authenticated. That an alteration IS rejected rests on hash/AEAD strength (not decided).",
+                technique="MIR cursor/advance analysis + effect traces + dataflow templates + crate-wide Result-use inventory",
+                design="DESIGN.md §4 C03"),
+    "C04": dict(level="other",
+                text="Key index by role, whole message/output passed through, nonce operand (counter or caller's nonce) encoded into the AEAD nonce, key/AD/body/tag operands of every backend call, short-ciphertext guard (lenproof), Error::Decrypt on failure, Result propagation on the transport path. Unforgeability itself is the AEAD's (not decided).",
+                technique="role-table extraction + operand-provenance checks of AEAD wrappers + lenproof preconditions over MIR",
+                design="DESIGN.md §4 C04"),
+    "C08": dict(level="other",
+                text="Every context item enters the transcript on both roles: h from the verbatim name, MixHash(prologue), pre-message keys by (role, list, token) initiator-first, psk via MixKeyAndHash of the configured key, static keys as DH operands per the role table, DH output into MixKey. That any disagreement is fatal rests on hash/AEAD strength (not decided).",
+                technique="MIR effect traces / decision-table extraction against the role tables of the specification",
+                design="DESIGN.md §4 C08"),
+    "C18": dict(level="other",
+                text="Snow-owned structure only: HMAC/HKDF templates (constants, truncations, counters), AEAD nonce layouts and operand wiring, binding table name()<->wrapped type<->lengths for all hash/DH/cipher impls, wrapper dataflow (clamped X25519 base-point/variable multiplication, uncompressed SEC1, rng-filled private keys). Every numerical statement about the external crates is NOT decided.",
+                technique="dataflow-template matching + binding-table extraction (types, statics, constant getters) over MIR",
+                design="DESIGN.md §4 C18"),
+    "C19": dict(level="other",
+                text="Only audited verify-then-decrypt AEAD entry points are called from Cipher impls; before the AEAD call only ciphertext, after it only success-path data is written to the caller's buffer (incl. ring's small-buffer path); nothing else writes the output buffer on any decrypt path up to the public API. The backends' internal verify-before-decrypt ordering is an assumption recorded with the Cargo.lock versions.",
+                technique="who-may-call inventory + dominance/success-path ordering of writes to the output buffer over MIR",
+                design="DESIGN.md §4 C19"),
+    "C20": dict(level="other",
+                text="Sibling agreement of default and ring impls (nonce layout, operands, tag, lengths; default HMAC/HKDF/REKEY), resolver tables choice->impl->name(), FallbackResolver structure (preferred, else fallback, same choice), Builder::new / with_resolver plumbing incl. ring-accelerated. Byte equality across backends depends on the crates' numerics (not decided).",
+                technique="sibling comparison of extracted wrapper structure + HIR resolver tables + closure-body matching",
+                design="DESIGN.md §4 C20"),
+})
+
 PENDING_REASON = "check under construction in this session (static rule not armed yet); see DESIGN.md §4"
 
 
